@@ -99,7 +99,8 @@ CHECKS = {
              "network's units); entry (s,i) of the default state is the entry computed for species s and cell i and its SI value is "
              "SI(density in env(i)) x SI(volume(i)) with dimension amount; default chemostat entry; get/set as an abstract map keyed by "
              "the entry index incl. unit conversion of the written value (SI preserved), rejection of invalid positions/species without "
-             "writing; regeneration reflects the current species. Tie: translator IndexPy/SystemPy/GeomPy + correspondence of whole "
+             "writing; regeneration reflects the current species; the constructor defaults of the space classes are pinned (cell volume = the number 1, "
+             "i.e. one cubic unit of the space's own units system; 1x1x1, environment 0, reflecting; node volume 1). Tie: translator IndexPy/SystemPy/GeomPy + correspondence of whole "
              "construct+call sequences (grid and graph spaces, all naming forms, units systems at every level) + SI oracle on the real code.",
         note="Lean kernel + {propext, Classical.choice, Quot.sound}; translator; correspondence harness; floats within 1e-9 relative; "
              "unit strings parsed by the package itself (C18).",
